@@ -14,6 +14,7 @@ import (
 	"time"
 
 	"github.com/hack-pad/hackpadfs"
+	"github.com/hack-pad/hackpadfs/mem"
 	"github.com/hack-pad/hackpadfs/mount"
 	"pgregory.net/rapid"
 
@@ -512,15 +513,18 @@ func concurrentAdd(c ConcCase) (string, string) {
 	mfs, err := mount.NewFS(g)
 	must(err)
 	errs := make([]error, c.N)
+	cands := make([]*mem.FS, c.N) // every caller brings its own file system
 	var wg sync.WaitGroup
 	start := make(chan struct{})
 	for i := 0; i < c.N; i++ {
 		i := i
+		cands[i] = subj.NewMem()
+		must(hackpadfs.WriteFullFile(cands[i], "who", []byte(fmt.Sprint(i)), 0o644))
 		wg.Add(1)
 		go func() {
 			defer wg.Done()
 			<-start
-			errs[i] = mfs.AddMount("m", subj.NewMem())
+			errs[i] = mfs.AddMount("m", cands[i])
 		}()
 	}
 	close(start)
@@ -549,6 +553,29 @@ func concurrentAdd(c ConcCase) (string, string) {
 	}
 	if pts := mfs.MountPoints(); len(pts) != 1 || pts[0].Path != "m" {
 		return "C06 addmount-concurrent:mountpoints", fmt.Sprintf("MountPoints() = %v", pts)
+	}
+	// the file system mounted at the point is the winner's: a caller that was told ErrExist has mounted nothing
+	winner := -1
+	for i, e := range errs {
+		if e == nil {
+			winner = i
+		}
+	}
+	b, rerr := hackpadfs.ReadFile(mfs, "m/who")
+	if rerr != nil || string(b) != fmt.Sprint(winner) {
+		return "C06 addmount-concurrent:loser-mounted", fmt.Sprintf("AddMount call %d succeeded, the others got ErrExist, but m/who reads %q, %v: operations are routed to a file system whose AddMount failed", winner, b, rerr)
+	}
+	if mounted, sub := mfs.Mount("m/who"); mounted != hackpadfs.FS(cands[winner]) || sub != "who" {
+		return "C06 addmount-concurrent:loser-mounted", fmt.Sprintf("Mount(\"m/who\") = (%p, %q), the winner's file system is %p", mounted, sub, cands[winner])
+	}
+	if err := hackpadfs.WriteFullFile(mfs, "m/new", []byte("x"), 0o644); err != nil {
+		return "C06 addmount-concurrent:write", err.Error()
+	}
+	for i, cfs := range cands {
+		_, serr := hackpadfs.Stat(cfs, "new")
+		if (serr == nil) != (i == winner) {
+			return "C06 addmount-concurrent:loser-mounted", fmt.Sprintf("a write to m/new after the race: candidate %d (winner %d) has it: %v", i, winner, serr == nil)
+		}
 	}
 	return "", ""
 }
